@@ -54,6 +54,10 @@ def run(tier, replay=None):
     if r.violation:
         raise vlib.Infra("Bytecode.tla contract fails on the model (specification defect): " + r.violation)
     ck.add_tlc(r, "Bytecode.tla: round trip, field independence, temp flag, function values")
+    # the same definitions (BytecodeEnc.tla) for every integer, by proof: admitted addresses round-trip, addresses
+    # outside the admitted range never do, admitted function values round-trip
+    nob = vlib.run_tlapm("BytecodeProof", deps=("BytecodeEnc",))
+    ck.part("BytecodeProof.tla (TLAPS): AddrRoundTrip, OutOfRangeNeverRoundTrips, FieldRoundTrip, FunctionRoundTrips over Int", obligations_proved=nob)
     vecs = [json.loads(l[4:]) for l in r.lines if l.startswith("OBS ")]
     vh = vlib.build_harness()
     p = subprocess.run([vh, "bcreplay"], input="\n".join(json.dumps(v) for v in vecs) + "\n", capture_output=True, text=True, timeout=1800)
